@@ -973,6 +973,8 @@ class Interp:
                     out.append((("bool", r.dfrs[v[1]]["fired"] is not None), r))
                 elif v[0] == "listref":
                     out.append((("listmeth", v[1], e.attr), r))
+                elif v[0] == "dfr" and e.attr in ("callback", "errback"):
+                    out.append((("dfrmeth", v[1], e.attr), r))
                 else:
                     out.append((("top",), r))
             return out
@@ -1208,6 +1210,16 @@ class Interp:
         if isinstance(e.func, ast.Name) and st.locs.get(e.func.id, ("x",))[0] == "listmeth":
             _, attr, m = st.locs[e.func.id]
             return self.list_call(attr, m, e, st)
+        if isinstance(e.func, ast.Name) and st.locs.get(e.func.id, ("x",))[0] == "dfrmeth":
+            _, did, m = st.locs[e.func.id]
+            out = []
+            for vals, r2 in self.eval_args(e.args, st):
+                if vals is None:
+                    out.append((None, r2))
+                    continue
+                for r3 in self.fire(("dfr", did), m, vals[0] if vals else ("none",), r2, e):
+                    out.append(((("none",) if not r3.exit else None), r3))
+            return out
         return self.opaque_call(e, st, "unknown function")
 
     def inline(self, func, owner, args, keywords, st: St) -> List[Tuple[tuple, St]]:
@@ -1475,6 +1487,16 @@ def fifo_rule(ctx, mod, cls, MODNAME, attr, cancellers, rule="queue/fifo", floor
                         return "pop_last"
         return a.kind
     acc = [a._replace(kind=norm_kind(a)) for a in acc]
+    called = {id(c.func) for k in [cls] + [b for b in (mod.find(dotted(x) or "") for x in cls.bases) if isinstance(b, ast.ClassDef)]
+              for c in ast.walk(k) if isinstance(c, ast.Call)}
+    from sa.effects import Access
+    for k in [cls] + [b for b in (mod.find(dotted(x) or "") for x in cls.bases) if isinstance(b, ast.ClassDef)]:
+        for name, fdef in methods(k).items():
+            for n in ast.walk(fdef):
+                if isinstance(n, ast.Attribute) and id(n) not in called and isinstance(n.value, ast.Attribute) and _sattr(n.value, attr) \
+                        and n.attr in ("append", "appendleft", "popleft", "remove", "clear", "extend", "insert", "pop", "sort", "reverse"):
+                    kind = {"append": "append", "appendleft": "appendleft", "popleft": "pop_first", "remove": "remove"}.get(n.attr, "bound:" + n.attr)
+                    acc.append(Access(f"{k.name}.{name}", attr, kind, n, True, "self"))
     fills = {a.kind for a in acc if a.kind in FILL_BACK | FILL_FRONT}
     for a in acc:
         fn = a.func.split(".", 1)[1]
@@ -2875,7 +2897,13 @@ class Normaliser:
         post = loop.body[ys[0] + 1:]
         if post and any(isinstance(x, ast.Continue) for b in st.body for x in walk_local(b)):
             raise _NoInline("consumer uses continue and the generator has code after its yield")
-        fused = ast.While(test=loop.test, body=loop.body[:ys[0]] + [ast.Assign(targets=[st.target], value=val)] + list(st.body) + post, orelse=[])
+        if isinstance(val, ast.Name) and isinstance(st.target, ast.Name):
+            # the yielded item lives in one local of the generator: call it by the consumer's name instead of copying it
+            loop = _Rename({val.id: st.target.id}, {}).visit(loop)
+            hand_over = []
+        else:
+            hand_over = [ast.Assign(targets=[st.target], value=val)]
+        fused = ast.While(test=loop.test, body=loop.body[:ys[0]] + hand_over + list(st.body) + loop.body[ys[0] + 1:], orelse=[])
         return prelude + [fused]
 
     def fuse_selector(self, st: ast.While):
@@ -2922,6 +2950,42 @@ class Normaliser:
         fused = ast.While(test=loop.test, body=repl(loop.body), orelse=[])
         return prelude + [fused]
 
+    def fuse_step(self, st: ast.While):
+        """``while self._step(args): BODY`` where _step does one round and returns a constant truth value on every path:
+        read as ``while True: <round with `return True` -> BODY; continue and `return False` -> break>``."""
+        call, neg = st.test, False
+        while isinstance(call, ast.UnaryOp) and isinstance(call.op, ast.Not):
+            call, neg = call.operand, not neg
+        h = self.helper(call)
+        if h is None or self.is_generator(h) or self.single_expr(h) is not None or st.orelse:
+            return None
+        prelude, rn = self.bind(h, call)
+        body = [rn.visit(clone(s)) for s in _strip_doc(h.body)]
+
+        def truth(v):
+            if v is None:
+                return False
+            if isinstance(v, ast.Constant):
+                return bool(v.value)
+            raise _NoInline("step helper returns a non-constant")
+
+        def repl(stmts):
+            out = []
+            for i, s in enumerate(stmts):
+                if isinstance(s, ast.Return):
+                    out += (clone(list(st.body)) + [ast.Continue()]) if truth(s.value) != neg else [ast.Break()]
+                    return out
+                if any(isinstance(x, ast.Return) for x in walk_local(s)):
+                    if not isinstance(s, ast.If):
+                        raise _NoInline("step helper returns from inside a loop / try / with")
+                    rest = stmts[i + 1:]
+                    out.append(ast.If(test=s.test, body=repl(list(s.body) + clone(rest)), orelse=repl(list(s.orelse) + clone(rest))))
+                    return out
+                out.append(s)
+            out += (clone(list(st.body)) + [ast.Continue()]) if neg else [ast.Break()]     # falls off the end: returns None
+            return out
+        return prelude + [ast.While(test=ast.Constant(value=True), body=repl(body), orelse=[])]
+
     # ---- driver
     def block(self, stmts):
         out = []
@@ -2935,6 +2999,8 @@ class Normaliser:
                         continue
                 if isinstance(st, ast.While):
                     f = self.fuse_selector(st)
+                    if f is None:
+                        f = self.fuse_step(st)
                     if f is not None:
                         self.changed = True
                         out += f
